@@ -368,9 +368,9 @@ def run(ctx):
     import itertools as _it
     pick = [v for v in seqv if len(v["s"]) == 3 and "".join(v["s"]) in ("ACG", "TNA", "gcn", "NNT", "acT")]
     ctx.absorb(core.pmap_isolated(check_order, [(list(p), pick) for p in _it.permutations(["ascii", "ACGT", "ACGTN"])]))
-    # spliced transcripts (spec/Transcripts.tla): every complete state of <= 2 (3) transcripts of <= 2 exons on a ten-letter reference
+    # spliced transcripts (spec/Transcripts.tla): every complete state of <= 2 transcripts of <= 2 exons of 1-2 (1-3) bases on a ten-letter reference (three transcripts did not finish in 40 minutes)
     rt = ctx.tlc("MC_Transcripts", tag="MC_Transcripts", spec="Spec", workers=8,
-                 constants={"Ref": "<- RefA", "MaxTranscripts": 2 if quick else 3, "MaxExons": 2, "ExonLens": [1, 2] if quick else [1, 2, 3]},
+                 constants={"Ref": "<- RefA", "MaxTranscripts": 2, "MaxExons": 2, "ExonLens": [1, 2] if quick else [1, 2, 3]},
                  invariants=["LengthIsSum", "StrandInvolution", "Emit"], properties=["Local"], coverage=True)
     ctx.require_actions(rt, "MC_Transcripts", ["NewTranscript", "AddExon"])
     # (quick tier: a deterministic sample of the complete states - every 15th, and every 6th of those with a minus-strand transcript of two exons)
